@@ -12,4 +12,8 @@ _ks.generate(core.REPO, core.LEAN / "Pun/Gen/KSGen.lean")
 hedge.generate(core.REPO, core.LEAN / "Pun/Gen/HedgeGen.lean")
 from pv.translator import grid as _grid
 _grid.generate(core.REPO, core.LEAN / "Pun/Gen/GridGen.lean")
+from pv.translator import trig as _trig
+_trig.generate(core.REPO, core.LEAN / "Pun/Gen/TrigGen.lean")
+from pv.translator import free as _free
+_free.generate(core.REPO, core.LEAN / "Pun/Gen/FreeGen.lean")
 print("generated")
